@@ -16,6 +16,7 @@
 #define VF_INPUTS(X) X(unsigned char, tk, ) X(unsigned char, pk, ) X(unsigned char, nt, ) X(unsigned char, np, ) X(unsigned char, keyt, [K]) X(unsigned char, keyp, [K]) X(unsigned char, pnull, [K]) \
     X(unsigned char, sub_ok, [K + 1]) X(unsigned char, dup_ok, ) X(unsigned char, eq, [K][K]) X(unsigned char, tnull, )
 #include "vf.h"
+#include "vf_str.h"
 #include "vf_mem.h"
 
 static unsigned dup_calls; static const cJSON *dup_arg[K + 2]; static cJSON *dup_ret[K + 2];
